@@ -127,6 +127,13 @@ CLAIMS.update({
          "3.9, 3.10, 4 (C08)"),
 })
 
+CLAIMS.update({
+ "C17": ("template-tree analysis (text/template/parse): presence-condition guards, cross-template threshold agreement, name/function resolution; SSA error-guard rule on gen.Generate",
+         "Decides, on the template trees themselves and therefore also for option branches no shipped grammar instantiates, that conditionally generated identifiers are referenced only under implying guards, that paired thresholds agree, that every template/function name resolves, and that generation errors are returned. One genuine defect (tokenStream without eventBased) is a recorded known finding. Necessary conditions of 'builds'; full type-correctness of every option combination is not decided.",
+         "Implication table for .Parser.Types (each entry justified by an assignment in compiler/).",
+         "3.10, 4 (C17)"),
+})
+
 NA = {
 }
 
